@@ -79,6 +79,22 @@ struct EThrowMove {
   }
 };
 
+/// trivial default constructor and destructor, but a user-provided copy assignment: the standard algorithms only ever *construct*
+/// objects of it (value-initialisation zeroes it); an implementation that "fills" raw memory by assignment calls operator= on
+/// storage that holds no object.
+static unsigned long g_assignCalls = 0;
+struct EAssignHook {
+  int key_, pay_;
+  EAssignHook() = default;
+  EAssignHook(int k, int p) : key_(k), pay_(p) {}
+  EAssignHook(const EAssignHook &) = default;
+  EAssignHook &operator=(const EAssignHook &o) { ++g_assignCalls; key_ = o.key_; pay_ = o.pay_; return *this; }
+  int k() const { return key_; }
+  int p() const { return pay_; }
+  static const bool kHooks = false;
+  static int state_of(const EAssignHook &) { return ES_ALIVE; }
+};
+
 // ------------------------------------------------------------------------------------------------ iterator wrappers
 template <class T, class Cat>
 struct WrapIt {
@@ -139,11 +155,45 @@ struct MInputIt {
   bool operator==(const MInputIt &o) const { return at_end() == o.at_end(); }
   bool operator!=(const MInputIt &o) const { return !(*this == o); }
 };
+/// random-access but NOT contiguous: visits every second element of an array (a whole-range memcpy from / to it is wrong)
+template <class T>
+struct StrideIt {
+  typedef std::random_access_iterator_tag iterator_category;
+  typedef T value_type;
+  typedef std::ptrdiff_t difference_type;
+  typedef T *pointer;
+  typedef T &reference;
+  T *p;
+  StrideIt() : p(nullptr) {}
+  explicit StrideIt(T *q) : p(q) {}
+  reference operator*() const { return *p; }
+  pointer operator->() const { return p; }
+  StrideIt &operator++() { p += 2; return *this; }
+  StrideIt operator++(int) { StrideIt t = *this; p += 2; return t; }
+  StrideIt &operator--() { p -= 2; return *this; }
+  StrideIt operator--(int) { StrideIt t = *this; p -= 2; return t; }
+  StrideIt &operator+=(difference_type n) { p += 2 * n; return *this; }
+  StrideIt &operator-=(difference_type n) { p -= 2 * n; return *this; }
+  StrideIt operator+(difference_type n) const { return StrideIt(p + 2 * n); }
+  StrideIt operator-(difference_type n) const { return StrideIt(p - 2 * n); }
+  difference_type operator-(const StrideIt &o) const { return (p - o.p) / 2; }
+  reference operator[](difference_type n) const { return p[2 * n]; }
+  bool operator==(const StrideIt &o) const { return p == o.p; }
+  bool operator!=(const StrideIt &o) const { return p != o.p; }
+  bool operator<(const StrideIt &o) const { return p < o.p; }
+  bool operator>(const StrideIt &o) const { return p > o.p; }
+  bool operator<=(const StrideIt &o) const { return p <= o.p; }
+  bool operator>=(const StrideIt &o) const { return p >= o.p; }
+};
+template <class It> bool same_pos(const It &a, const It &b) { return a == b; }
+template <class T> bool same_pos(const MInputIt<T> &a, const MInputIt<T> &b) { return (a.s ? a.s->cursor : 0) == (b.s ? b.s->cursor : 0); }
 template <class T> T *base_of(T *p) { return p; }
 template <class T> T *base_of(const T *p) { return const_cast<T *>(p); }
 template <class T> T *base_of(MInputIt<T> it) { return it.s ? it.s->data + it.s->cursor : nullptr; }
 template <class T, class C> T *base_of(WrapIt<T, C> it) { return it.p; }
 template <class T> T *base_of(std::move_iterator<T *> it) { return it.base(); }
+template <class T> T *base_of(StrideIt<T> it) { return it.p; }
+template <class T> T *base_of(std::reverse_iterator<T *> it) { return it.base(); }
 
 enum Algo {
   A_CONSTRUCT_AT = 0, A_CONSTRUCT_AT_COPY, A_CONSTRUCT_AT_MOVE, A_DESTROY_AT, A_DESTROY, A_DESTROY_N, A_UCOPY, A_UCOPY_N, A_UMOVE, A_UMOVE_N, A_UDEFAULT,
@@ -153,10 +203,12 @@ static const char *kAlgoNames[] = {"construct_at", "construct_at_copy", "constru
                                    "uninitialized_copy_n", "uninitialized_move", "uninitialized_move_n", "uninitialized_default_construct",
                                    "uninitialized_default_construct_n", "uninitialized_value_construct", "uninitialized_value_construct_n",
                                    "uninitialized_relocate", "uninitialized_relocate_n", "relocate_at", "construct_at_array", "destroy_at_array"};
-enum IterKind { I_PTR = 0, I_RA, I_BIDI, I_FWD, I_MOVE, I_INPUT, I_CPTR, I_NITER };
-static const char *kIterNames[] = {"pointer", "random_access", "bidirectional", "forward", "move_iterator", "single_pass_input", "const_pointer"};
-enum ValKind { VAL_TRIV = 0, VAL_TR, VAL_NONTR, VAL_THROWMOVE, VAL_AGG, VAL_NVAL };
-static const char *kValNames[] = {"trivial", "ETr", "ENonTr", "EThrowMove", "aggregate"};
+enum IterKind { I_PTR = 0, I_RA, I_BIDI, I_FWD, I_MOVE, I_INPUT, I_CPTR, I_REV, I_STRIDE, I_PTR_DREV, I_RA_DFWD, I_STRIDE_DRA, I_NITER };
+static const char *kIterNames[] = {"pointer", "random_access", "bidirectional", "forward", "move_iterator", "single_pass_input", "const_pointer",
+                                   "reverse_pointer", "strided_random_access", "pointer_to_reverse_dest", "random_access_to_forward_dest",
+                                   "strided_to_random_access_dest"};
+enum ValKind { VAL_TRIV = 0, VAL_TR, VAL_NONTR, VAL_THROWMOVE, VAL_AGG, VAL_ASSIGNHOOK, VAL_NVAL };
+static const char *kValNames[] = {"trivial", "ETr", "ENonTr", "EThrowMove", "aggregate", "trivial_ctor_user_assign"};
 
 struct Case {
   int algo, len, iter, val, throwIdx;
@@ -171,6 +223,7 @@ template <class T> struct IsAggVal { static const bool value = false; };
 template <> struct IsAggVal<EAgg> { static const bool value = true; };
 template <class T> struct IsTrivVal { static const bool value = false; };
 template <> struct IsTrivVal<ETriv> { static const bool value = true; };
+template <> struct IsTrivVal<EAssignHook> { static const bool value = true; };  // as far as construction goes
 
 template <class T>
 struct Runner {
@@ -180,47 +233,59 @@ struct Runner {
   std::vector<Val> srcVals;
 
   int extra;  // source elements beyond the n the algorithm is asked to process (a stream does not end where the caller stops reading)
-  void setup(int len, int extraTail = 0) {
-    n = len; extra = extraTail;
-    src = static_cast<T *>(g_heap.allocate((size_t)(len + extra ? len + extra : 1) * sizeof(T), 0, 0, DOM_STD, false));
+  int sStep;  // 1, or 2 for the strided (non-contiguous) source: the odd slots hold bystander objects
+  bool sRev, dRev;  // source / destination traversed through a reverse_iterator
+  int sidx(int i) const { return sRev ? n - 1 - i : i * sStep; }
+  int didx(int i) const { return dRev ? n - 1 - i : i; }
+  int src_count() const { return sStep == 2 ? 2 * n : n + extra; }
+  bool mapped(int j) const { return sStep == 2 ? (j % 2 == 0 && j / 2 < n) : j < n; }
+  void setup(int len, int extraTail = 0, int step = 1, bool srcRev = false, bool dstRev = false) {
+    n = len; extra = step == 2 ? 0 : extraTail; sStep = step; sRev = srcRev; dRev = dstRev;
+    int cnt = src_count();
+    src = static_cast<T *>(g_heap.allocate((size_t)(cnt ? cnt : 1) * sizeof(T), 0, 0, DOM_STD, false));
     dst = static_cast<T *>(g_heap.allocate((size_t)(len ? len : 1) * sizeof(T), 0, 0, DOM_STD, false));
     srcVals.clear();
-    for (int i = 0; i < len + extra; ++i) { ::new ((void *)(src + i)) T(10 + i, 100 + i); srcVals.push_back(Val{10 + i, 100 + i}); }
+    for (int i = 0; i < cnt; ++i) { ::new ((void *)(src + i)) T(10 + i, 100 + i); srcVals.push_back(Val{10 + i, 100 + i}); }
   }
   void release_blocks() {
-    g_heap.deallocate(src, (size_t)(n + extra ? n + extra : 1) * sizeof(T), 0, 0, DOM_STD, true);
+    int cnt = src_count();
+    g_heap.deallocate(src, (size_t)(cnt ? cnt : 1) * sizeof(T), 0, 0, DOM_STD, true);
     g_heap.deallocate(dst, (size_t)(n ? n : 1) * sizeof(T), 0, 0, DOM_STD, true);
   }
   static bool alive(const T &e) { int s = T::state_of(e); return s == ES_ALIVE || s == ES_MOVED; }
   // destroy whatever the harness still owns
   void destroy_sources(int from = 0) {
-    for (int i = from; i < n + extra; ++i) if (alive(src[i])) src[i].~T();
+    for (int i = from; i < src_count(); ++i) if (alive(src[i])) src[i].~T();
+  }
+  void destroy_bystanders() {
+    for (int j = 0; j < src_count(); ++j) if (!mapped(j) && alive(src[j])) src[j].~T();
   }
   void check_dst_values(int count, const char *what) {
     for (int i = 0; i < count; ++i) {
-      if (T::state_of(dst[i]) != ES_ALIVE) { fail(std::string(what) + ": destination object is not alive"); return; }
-      if (dst[i].k() != srcVals[i].key || dst[i].p() != srcVals[i].pay) { fail(std::string(what) + ": destination object has a wrong value"); return; }
+      const T &d = dst[didx(i)];
+      if (T::state_of(d) != ES_ALIVE) { fail(std::string(what) + ": destination object is not alive"); return; }
+      if (d.k() != srcVals[sidx(i)].key || d.p() != srcVals[sidx(i)].pay) { fail(std::string(what) + ": destination object has a wrong value"); return; }
     }
   }
   void destroy_dst(int count) { for (int i = 0; i < count; ++i) if (alive(dst[i])) dst[i].~T(); }
 
   // relocation is not instantiated for move_iterator sources (it would destroy through an rvalue)
-  template <class It>
+  template <class It, class D>
   struct RelocCall {
-    static T *reloc(It f, It l, T *d) { return amc::uninitialized_relocate(f, l, d); }
-    static std::pair<It, T *> reloc_n(It f, int n, T *d) { return amc::uninitialized_relocate_n(f, n, d); }
+    static D reloc(It f, It l, D d) { return amc::uninitialized_relocate(f, l, d); }
+    static std::pair<It, D> reloc_n(It f, int n, D d) { return amc::uninitialized_relocate_n(f, n, d); }
   };
-  template <class U>
-  struct RelocCall<MInputIt<U> > {
+  template <class U, class D>
+  struct RelocCall<MInputIt<U>, D> {
     typedef MInputIt<U> It;
-    static T *reloc(It, It, T *d) { return d; }
-    static std::pair<It, T *> reloc_n(It f, int, T *d) { return std::pair<It, T *>(f, d); }
+    static D reloc(It, It, D d) { return d; }
+    static std::pair<It, D> reloc_n(It f, int, D d) { return std::pair<It, D>(f, d); }
   };
-  template <class U>
-  struct RelocCall<std::move_iterator<U> > {
+  template <class U, class D>
+  struct RelocCall<std::move_iterator<U>, D> {
     typedef std::move_iterator<U> It;
-    static T *reloc(It, It, T *d) { return d; }
-    static std::pair<It, T *> reloc_n(It f, int, T *d) { return std::pair<It, T *>(f, d); }
+    static D reloc(It, It, D d) { return d; }
+    static std::pair<It, D> reloc_n(It f, int, D d) { return std::pair<It, D>(f, d); }
   };
 
   template <class It>
@@ -228,10 +293,14 @@ struct Runner {
   static MInputIt<T> make_last(MInputIt<T>, int) { return MInputIt<T>(); }
 
   template <class It>
-  void run_range_algo(const Case &c, It first) {
+  void run_range_algo(const Case &c, It first) { run_range_algo2(c, first, dst); }
+  template <class It, class D>
+  void run_range_algo2(const Case &c, It first, D dfirst) {
     It last = make_last(first, n);
+    D dlast = dfirst;
+    std::advance(dlast, n);
     bool threw = false;
-    T *ret = nullptr;
+    D ret = dfirst;
     It retIt = first;
     bool hasRetIt = false;
     G.faultKind = c.throwIdx >= 0 ? F_ELEM : F_NONE; G.faultCountdown = c.throwIdx; G.faultFired = false;
@@ -239,30 +308,34 @@ struct Runner {
     try {
       Arm a;
       switch (c.algo) {
-        case A_UCOPY: ret = amc::uninitialized_copy(first, last, dst); break;
-        case A_UCOPY_N: ret = amc::uninitialized_copy_n(first, n, dst); break;
-        case A_UMOVE: ret = amc::uninitialized_move(first, last, dst); break;
-        case A_UMOVE_N: { std::pair<It, T *> pr = amc::uninitialized_move_n(first, n, dst); retIt = pr.first; hasRetIt = true; ret = pr.second; } break;
-        case A_URELOC: ret = RelocCall<It>::reloc(first, last, dst); break;
-        case A_URELOC_N: { std::pair<It, T *> pr = RelocCall<It>::reloc_n(first, n, dst); retIt = pr.first; hasRetIt = true; ret = pr.second; } break;
+        case A_UCOPY: ret = amc::uninitialized_copy(first, last, dfirst); break;
+        case A_UCOPY_N: ret = amc::uninitialized_copy_n(first, n, dfirst); break;
+        case A_UMOVE: ret = amc::uninitialized_move(first, last, dfirst); break;
+        case A_UMOVE_N: { std::pair<It, D> pr = amc::uninitialized_move_n(first, n, dfirst); retIt = pr.first; hasRetIt = true; ret = pr.second; } break;
+        case A_URELOC: ret = RelocCall<It, D>::reloc(first, last, dfirst); break;
+        case A_URELOC_N: { std::pair<It, D> pr = RelocCall<It, D>::reloc_n(first, n, dfirst); retIt = pr.first; hasRetIt = true; ret = pr.second; } break;
         default: break;
       }
     } catch (SimFault &) { threw = true; }
     G.armed = false; G.faultKind = F_NONE;
     bool reloc = c.algo == A_URELOC || c.algo == A_URELOC_N;
     bool moves = reloc || c.algo == A_UMOVE || c.algo == A_UMOVE_N || c.iter == I_MOVE;
-    for (int i = n; i < n + extra && g_fail.empty(); ++i)
-      if (T::state_of(src[i]) != ES_ALIVE || src[i].k() != srcVals[i].key) fail("single-pass input range: elements beyond the n-th were consumed or modified");
+    for (int j = 0; j < src_count() && g_fail.empty(); ++j)
+      if (!mapped(j) && (T::state_of(src[j]) != ES_ALIVE || src[j].k() != srcVals[j].key))
+        fail(sStep == 2 ? "non-contiguous source range: an object between the elements of the range was read, moved or modified"
+                        : "single-pass input range: elements beyond the n-th were consumed or modified");
     if (!threw) {
       if (c.throwIdx >= 0 && G.faultFired) fail("fault fired but no exception propagated");
-      if (ret != dst + n) fail("returned destination iterator is not dest + n");
-      if (hasRetIt && base_of(retIt) != src + n) fail("returned source iterator is not first + n");
+      if (!(ret == dlast)) fail("returned destination iterator is not dest + n");
+      if (hasRetIt && !same_pos(retIt, last) && c.iter != I_INPUT) fail("returned source iterator is not first + n");
+      if (hasRetIt && c.iter == I_INPUT && base_of(retIt) != src + n) fail("returned source iterator is not first + n");
       check_dst_values(n, kAlgoNames[c.algo]);
       long expectCreated = (reloc && amc::is_trivially_relocatable<T>::value) ? 0 : n;  // a byte-wise relocation creates no object
       if (T::kHooks && g_elems.liveArmed - live0 != expectCreated) fail("number of objects created in the destination is not n");
       // source state
       for (int i = 0; i < n && g_fail.empty(); ++i) {
-        int st = T::state_of(src[i]);
+        const T &sv = src[sidx(i)];
+        int st = T::state_of(sv);
         if (reloc) {
           if (amc::is_trivially_relocatable<T>::value) { /* bytes copied, source is dead storage: its identity now lives in dst */ }
           else if (T::kHooks && st != ES_DEAD && st != ES_GARBAGE) fail("relocate: source object was not destroyed");
@@ -272,16 +345,16 @@ struct Runner {
           if (T::kHooks && st != ES_MOVED && !IsTrivVal<T>::value) fail("move: source object is not in a moved-from state");
         } else if (st != ES_ALIVE) {
           fail("copy: source object changed state");
-        } else if (src[i].k() != srcVals[i].key) fail("copy: source value changed");
+        } else if (sv.k() != srcVals[sidx(i)].key) fail("copy: source value changed");
       }
       destroy_dst(n);
       if (!reloc) destroy_sources();
-      else if (amc::is_trivially_relocatable<T>::value) { /* nothing: the n objects were destroyed through dst */ }
+      else destroy_bystanders();  // the n relocated objects were destroyed by the algorithm (or, byte-wise, through dst)
     } else {
       // every object the algorithm created is destroyed, the sources stay alive, nothing else is touched
       if (T::kHooks && g_elems.liveArmed != live0) fail("after a throw: objects created by the algorithm are still alive (or too many were destroyed)");
       for (int i = 0; i < n && g_fail.empty(); ++i)
-        if (!alive(src[i])) fail("after a throw: a source object is no longer alive");
+        if (!alive(src[sidx(i)])) fail("after a throw: a source object is no longer alive");
       destroy_sources();
     }
     G.faultFired = threw;
@@ -290,7 +363,9 @@ struct Runner {
   void run_case(const Case &c) {
     // the counted algorithms on a single-pass stream: the stream continues after the n-th element
     bool counted = c.algo == A_UCOPY_N || c.algo == A_UMOVE_N;
-    setup(c.len, (c.iter == I_INPUT && counted) ? 3 : 0);
+    bool rangeAlgo = c.algo >= A_UCOPY && c.algo <= A_URELOC_N && c.algo != A_UDEFAULT && c.algo != A_UDEFAULT_N && c.algo != A_UVALUE && c.algo != A_UVALUE_N;
+    bool strided = rangeAlgo && (c.iter == I_STRIDE || c.iter == I_STRIDE_DRA);
+    setup(c.len, (c.iter == I_INPUT && counted) ? 3 : 0, strided ? 2 : 1, rangeAlgo && c.iter == I_REV, rangeAlgo && c.iter == I_PTR_DREV);
     long live0 = g_elems.liveArmed;
     bool threw = false;
     switch (c.algo) {
@@ -336,6 +411,7 @@ struct Runner {
         if (IsTrivVal<T>::value) memset((void *)dst, 0x5A, (size_t)(n ? n : 1) * sizeof(T));
         G.faultKind = c.throwIdx >= 0 ? F_ELEM : F_NONE; G.faultCountdown = c.throwIdx; G.faultFired = false;
         T *ret = dst + n;
+        unsigned long assign0 = g_assignCalls;
         try {
           Arm a;
           if (c.algo == A_UDEFAULT) amc::uninitialized_default_construct(dst, dst + n);
@@ -344,6 +420,7 @@ struct Runner {
           else ret = amc::uninitialized_value_construct_n(dst, n);
         } catch (SimFault &) { threw = true; }
         G.armed = false; G.faultKind = F_NONE;
+        if (g_assignCalls != assign0) fail("default/value construction called the element's assignment operator on raw memory (it must only construct)");
         if (!threw) {
           if (ret != dst + n) fail("returned iterator is not first + n");
           for (int i = 0; i < n && g_fail.empty(); ++i) {
@@ -386,6 +463,11 @@ struct Runner {
           case I_BIDI: run_range_algo(c, WrapIt<T, std::bidirectional_iterator_tag>(src)); break;
           case I_FWD: run_range_algo(c, WrapIt<T, std::forward_iterator_tag>(src)); break;
           case I_CPTR: run_range_algo(c, static_cast<const T *>(src)); break;  // const source: "move" and "relocate" copy
+          case I_REV: run_range_algo(c, std::reverse_iterator<T *>(src + n)); break;   // random access, not contiguous in iteration order
+          case I_STRIDE: run_range_algo(c, StrideIt<T>(src)); break;
+          case I_PTR_DREV: run_range_algo2(c, src, std::reverse_iterator<T *>(dst + n)); break;
+          case I_RA_DFWD: run_range_algo2(c, WrapIt<T, std::random_access_iterator_tag>(src), WrapIt<T, std::forward_iterator_tag>(dst)); break;
+          case I_STRIDE_DRA: run_range_algo2(c, StrideIt<T>(src), WrapIt<T, std::random_access_iterator_tag>(dst)); break;
           case I_INPUT: {
             MStream<T> st(src, (size_t)(n + extra));
             run_range_algo(c, MInputIt<T>(&st));
@@ -460,6 +542,7 @@ static bool exec_case(const Case &c) {
       case VAL_TR: { Runner<ETr> r; r.run_case(c); } break;
       case VAL_NONTR: { Runner<ENonTr<true> > r; r.run_case(c); } break;
       case VAL_AGG: { Runner<EAgg> r; r.run_case(c); } break;
+      case VAL_ASSIGNHOOK: { Runner<EAssignHook> r; r.run_case(c); } break;
       default: { Runner<EThrowMove> r; r.run_case(c); } break;
     }
   }
@@ -563,6 +646,11 @@ int main(int argc, char **argv) {
       Rng r(mix64(base, i));
       Case c;
       c.algo = (int)r.below(A_NALGO); c.len = (int)r.below(7); c.iter = (int)r.below(I_NITER); c.val = (int)r.below(VAL_NVAL); c.throwIdx = -1;
+      {  // steer inapplicable draws to an applicable neighbour instead of skipping them
+        bool range = c.algo >= A_UCOPY && c.algo <= A_UMOVE_N, reloc = c.algo == A_URELOC || c.algo == A_URELOC_N;
+        if (!range && !reloc) c.iter = I_PTR;
+        else if (reloc && (c.iter == I_MOVE || c.iter == I_INPUT)) c.iter = c.iter == I_MOVE ? I_REV : I_STRIDE;
+      }
       if (!applicable(c)) { ++skipped; continue; }
       ++cases;
       size_t cell = (((size_t)c.algo * 7 + c.len) * I_NITER + c.iter) * VAL_NVAL + c.val;
